@@ -13,6 +13,12 @@ fn kind_for(scheme: &str, rng: &mut Rng) -> Kind {
 /// other scheme, else a third key of the same scheme
 pub fn case_keys(scheme: &str, rng: &mut Rng) -> (Vec<Vec<u8>>, Kind) {
     let kind = kind_for(scheme, rng);
+    case_keys_of_kind(scheme, rng, kind)
+}
+
+/// the same with the kind of the own key chosen by the caller (CombinedKey: both directions of a
+/// cross-scheme update must occur whatever the seed)
+pub fn case_keys_of_kind(scheme: &str, rng: &mut Rng, kind: Kind) -> (Vec<Vec<u8>>, Kind) {
     let k0 = IndKey::gen(rng, kind);
     let mut k1 = IndKey::gen(rng, kind);
     if kind == Kind::Secp && rng.chance(1, 4) {
@@ -518,8 +524,15 @@ pub fn gen_hist(schemes: &[&str], rng: &mut Rng, thorough: bool, cases: &mut Vec
         // then in use at the same time); the toy scheme's signature length depends on the key
         let mut keysets = vec![keys.clone()];
         if *scheme != "toy" {
-            for _ in 0..3 {
-                keysets.push(case_keys(scheme, rng).0);
+            for n in 0..3 {
+                if *scheme == "comb" {
+                    // own keys of both schemes whatever the seed
+                    let other = if ind_of(scheme, &keys[0]).kind == Kind::Secp { Kind::Ed } else { Kind::Secp };
+                    let kind = if n % 2 == 0 { other } else { ind_of(scheme, &keys[0]).kind };
+                    keysets.push(case_keys_of_kind(scheme, rng, kind).0);
+                } else {
+                    keysets.push(case_keys(scheme, rng).0);
+                }
             }
         }
         let init_list = inits(rng, sig_len_of(scheme, &keys));
@@ -754,8 +767,20 @@ pub fn gen_size(schemes: &[&str], rng: &mut Rng, thorough: bool, cases: &mut Vec
     } else {
         &[1, 127, 255, 65535]
     };
+    let mut runs: Vec<(&str, Option<Kind>)> = Vec::new();
     for scheme in schemes {
-        let (keys, _) = case_keys(scheme, rng);
+        if *scheme == "comb" {
+            runs.push((scheme, Some(Kind::Secp)));
+            runs.push((scheme, Some(Kind::Ed)));
+        } else {
+            runs.push((scheme, None));
+        }
+    }
+    for (scheme, forced) in &runs {
+        let (keys, _) = match forced {
+            Some(k) => case_keys_of_kind(scheme, rng, *k),
+            None => case_keys(scheme, rng),
+        };
         let sl = sig_len_of(scheme, &keys);
         let steps: Vec<String> = vec![
             "step op=insert key=7a vt=bytes val=78".into(),
